@@ -447,6 +447,8 @@ MUTANTS = [
            '            for type, data in b:\n                self.writeExtended(type, data)\n            self.closing = closing\n', expect_rule="s/close/recorded"),
     Mutant("F36a-repair-without-retry", CH, '            if closing:\n                self.loseConnection()  # try again\n\n    def requestReceived',
            '\n    def requestReceived', expect_rule="s/close/recorded"),
+    Mutant("ext-limit-test-through-min-off-by-one", CO, "        if dataLength > channel.localWindowLeft or dataLength > channel.localMaxPacket:\n", "        if dataLength >= min(channel.localWindowLeft, channel.localMaxPacket):\n",
+           expect_rule="s/receive/window-boundary"),
 ]
 SILENT = [
     Silent("close-guard-as-early-return", CH, "        self.closing = 1\n        if not self.buf and not self.extBuf:\n            self.conn.sendClose(self)\n", "        self.closing = 1\n        if self.buf or self.extBuf:\n            return\n        self.conn.sendClose(self)\n"),
@@ -474,4 +476,5 @@ SILENT = [
     Silent("overflow-branch-at-equality", CH, "        if top > self.remoteWindowLeft:\n            data, self.buf = (", "        if top >= self.remoteWindowLeft:\n            data, self.buf = ("),
     Silent("decrement-by-len-of-truncated-data", CH, "        self.remoteWindowLeft -= top\n", "        self.remoteWindowLeft -= len(data)\n"),
     Silent("addWindowBytes-augassign", CH, "        self.remoteWindowLeft = self.remoteWindowLeft + data\n", "        self.remoteWindowLeft += data\n"),
+    Silent("ext-limit-test-through-min", CO, "        if dataLength > channel.localWindowLeft or dataLength > channel.localMaxPacket:\n", "        if dataLength > min(channel.localWindowLeft, channel.localMaxPacket):\n"),
 ]
